@@ -161,7 +161,7 @@ class RTable:
             return False
         seen = set()
         for r in range(self.n):
-            tup = tuple(_hashable(k.vec[r]) for k in self.ordkeys)
+            tup = tuple(_order_bucket(k.vec[r]) for k in self.ordkeys)
             if tup in seen:
                 return False
             seen.add(tup)
@@ -172,6 +172,13 @@ def _hashable(v):
     if isinstance(v, float) and v == 0:
         return 0.0
     return v
+
+
+def _order_bucket(v):
+    """Floats that differ only by rounding error do not fix an order (an engine may compute them equal or swapped)."""
+    if isinstance(v, float) and v == v and v not in (float("inf"), float("-inf")):
+        return float(f"{v:.9g}") + 0.0
+    return _hashable(v)
 
 
 def source_table(name, schema, rows, mode):
@@ -740,7 +747,15 @@ def order_indices(n, keys: list[OrdKey], base=None):
 
 
 def keys_equal(keys, i, j):
-    return all(_cmp_key(k.vec[i], k.vec[j], k.desc, k.nl) == 0 for k in keys)
+    """Tie test for order-dependent results: floats within rounding error of each other count as tied."""
+    return all(_cmp_key(k.vec[i], k.vec[j], k.desc, k.nl) == 0 or _near_floats(k.vec[i], k.vec[j]) for k in keys)
+
+
+def _near_floats(a, b):
+    if isinstance(a, float) or isinstance(b, float):
+        if isinstance(a, int | float) and isinstance(b, int | float) and not isinstance(a, bool) and not isinstance(b, bool):
+            return abs(a - b) <= 1e-9 * max(1.0, abs(a), abs(b))
+    return False
 
 
 def keys_have_unmarked_null(keys):
